@@ -20,6 +20,7 @@ import (
 
 	"golang.org/x/tools/go/ssa"
 	"verif/gosym/load"
+	"verif/gosym/smt"
 	"verif/gosym/sym"
 )
 
@@ -125,7 +126,7 @@ func cmdCheck(args []string) int {
 	verbose := fs.Bool("v", false, "verbose")
 	noReplay := fs.Bool("noreplay", false, "skip native replays (development)")
 	workers := fs.Int("workers", runtime.NumCPU(), "parallel workers")
-	solver := fs.String("solver", "z3", "solver binary")
+	solver := fs.String("solver", envOr("GOSYM_SOLVER", "z3-new"), "solver binary")
 	timeout := fs.Int("timeout", 20000, "solver timeout per query (ms)")
 	var params multiFlag
 	fs.Var(&params, "p", "harness parameter name=value (repeatable)")
@@ -145,6 +146,9 @@ func cmdCheck(args []string) int {
 		return 2
 	}
 	start := time.Now()
+	if v, err := strconv.Atoi(os.Getenv("GOSYM_SLOW")); err == nil {
+		smt.SlowMS = v
+	}
 	verif := verifDir()
 	seed, _ := strconv.ParseInt(envOr("VERIF_SEED", "0"), 10, 64)
 	tierN := 0
@@ -237,6 +241,9 @@ func cmdCheck(args []string) int {
 		fmt.Printf("harness %s: paths=%d obligations=%d discharged=%d (trivial %d) violations=%d inconclusive=%d labels=%d queries=%d solver=%.1fs wall=%.1fs\n",
 			r.Name, r.Paths, r.Obligations, r.Discharged, r.Trivial, len(r.Violations), sumMap(r.Incon), len(r.Reached), r.Queries, r.SolverS, r.WallS)
 		if *verbose {
+			for k, v := range eng.MergeStats {
+				fmt.Printf("   merged %s: explored=%d queries(incl nested)=%d\n", k, v[0], v[1])
+			}
 			for k, v := range r.Incon {
 				fmt.Printf("   incon x%d: %s\n", v, k)
 			}
